@@ -167,6 +167,7 @@ def emit (k : FKey) (s : St) (c : Chan) : Op → List WOp
   | .req r path l22 off l3 map => if s.running then emitReq k s c r path l22 off l3 map else []
   | .pub counts => [.publish (List.replicate (counts[k.ch]?.getD 0) ())]
   | .proj _ => []
+  | .lens .. => []      -- a record-length request touches no writer and no pause flag
   | .srcEnd => if s.running && s.ws.active then [.stop] else []
   | .srcStart => if s.running then [] else [.unpause]
 
@@ -386,6 +387,7 @@ theorem step_len (s : St) (o : Op) : (step s o).1.chans.length = s.chans.length 
   | proj ch => simp [step, setProj_length]
   | srcEnd => simp only [step]; split <;> simp
   | srcStart => simp only [step]; split <;> simp
+  | lens n p => rcases lens_step_cases s n p with h | ⟨h, _⟩ | ⟨h, _, _⟩ <;> rw [h] <;> simp
 
 theorem step_dirs (s : St) (o : Op) : ∀ r ∈ s.dirs, r ∈ (step s o).1.dirs := by
   intro r hr
@@ -409,6 +411,7 @@ theorem step_dirs (s : St) (o : Op) : ∀ r ∈ s.dirs, r ∈ (step s o).1.dirs 
   | proj ch => exact hr
   | srcEnd => simp only [step]; split <;> exact hr
   | srcStart => simp only [step]; split <;> exact hr
+  | lens n p => rcases lens_step_cases s n p with h | ⟨h, _⟩ | ⟨h, _, _⟩ <;> rw [h] <;> exact hr
 
 /-- only publications touch the files -/
 theorem step_files (s : St) (o : Op) (h : ∀ counts, o ≠ .pub counts) : (step s o).1.files = s.files := by
@@ -418,6 +421,7 @@ theorem step_files (s : St) (o : Op) (h : ∀ counts, o ≠ .pub counts) : (step
   | proj ch => rfl
   | srcEnd => simp only [step]; split <;> rfl
   | srcStart => simp only [step]; split <;> rfl
+  | lens n p => rcases lens_step_cases s n p with h | ⟨h, _⟩ | ⟨h, _, _⟩ <;> rw [h]
 
 /-- what a publication adds to file `k` -/
 theorem stored_pub (s : St) (counts : List Nat) (k : FKey) :
@@ -446,6 +450,7 @@ theorem stepOK_none (k : FKey) (s : St) (c : C05.Ctl) (o : Op) (hr : Rel k s c)
     | proj ch => rw [step_files _ _ (by intro _ h; cases h)]; rfl
     | srcEnd => rw [step_files _ _ (by intro _ h; cases h)]; rfl
     | srcStart => rw [step_files _ _ (by intro _ h; cases h)]; rfl
+    | lens n p => rw [step_files _ _ (by intro _ h; cases h)]; rfl
 
 /-! #### the channel exists: one lemma per kind of step -/
 
@@ -593,6 +598,20 @@ theorem stepOK_proj (k : FKey) (s : St) (c : C05.Ctl) (ch : Nat) (hr : Rel k s c
   rw [e1, e2]
   exact hr.chan cc hcc
 
+/-- an accepted record-length change drops the projectors: no writer, no pause flag is touched -/
+theorem stepOK_lensChanged (k : FKey) (s : St) (c : C05.Ctl) (n p : Int) (hr : Rel k s c)
+    (hs : step s (.lens n p) =
+      ({ s with lens := (n, p), chans := s.chans.map fun c => { c with proj := false } }, false)) :
+    StepOK k s c (.lens n p) := by
+  unfold StepOK
+  have he : emitAt k s (.lens n p) = [] := by
+    unfold emitAt; split <;> rfl
+  rw [he, hs]
+  refine ⟨⟨?_, hr.dirs⟩, rfl⟩
+  intro cc' h
+  obtain ⟨cc, hcc, rfl⟩ := map_get (f := fun c : Chan => { c with proj := false }) (cs := s.chans) h
+  exact hr.chan cc hcc
+
 /-- a publication: the file gains the batch exactly when C05's writer is writing -/
 theorem stepOK_pub (k : FKey) (s : St) (c : C05.Ctl) (counts : List Nat) (hr : Rel k s c) :
     StepOK k s c (.pub counts) := by
@@ -632,6 +651,11 @@ theorem rel_step (k : FKey) (s : St) (c : C05.Ctl) (o : Op) (hg : Good s) (hr : 
     cases o with
     | pub counts => exact stepOK_pub k s c counts hr
     | proj ch => exact stepOK_proj k s c ch hr
+    | lens n p =>
+      rcases lens_step_cases s n p with h | ⟨h, _⟩ | ⟨h, _, _⟩
+      · exact stepOK_same k s s c _ hr (by rw [h]) rfl rfl rfl (by rw [emitAt_some hcc]; rfl)
+      · exact stepOK_same k s s c _ hr (by rw [h]) rfl rfl rfl (by rw [emitAt_some hcc]; rfl)
+      · exact stepOK_lensChanged k s c n p hr h
     | srcStart =>
       cases hrun : s.running with
       | false => exact stepOK_srcStart k s c cc hg hr hcc hrun
@@ -681,7 +705,7 @@ theorem rel_step (k : FKey) (s : St) (c : C05.Ctl) (o : Op) (hg : Good s) (hr : 
             obtain ⟨_, hnw, _, hmk, _, _⟩ := startTarget_some s path l22 off l3 map run ht
             have hfresh := (firstUnused_spec s.dirs run.pid 10000 0 run.num hmk).1
             exact stepOK_start k s
-              { s with chans := s.chans.map (·.start run l22 off l3), dirs := run :: s.dirs,
+              { s with chans := s.chans.map (·.start run l22 off l3), dirs := run :: s.dirs, startLens := s.lens,
                        ws := { active := true, paused := false, base := some run.pid, pat := some run, l22, off, l3 } }
               c _ cc hr hcc run l22 off l3 hnw hfresh
               (by rw [hst]; simp only [reqStep, hk, startReq, ht]) rfl rfl rfl
@@ -689,8 +713,8 @@ theorem rel_step (k : FKey) (s : St) (c : C05.Ctl) (o : Op) (hg : Good s) (hr : 
 
 /-! ### all histories -/
 
-theorem rel_init (k : FKey) (proj : List Bool) (pre : List Run) (nums : List Int) (blocked : List Nat) :
-    Rel k (St.init proj pre nums blocked) {} := by
+theorem rel_init (k : FKey) (proj : List Bool) (pre : List Run) (nums : List Int) (blocked : List Nat) (lens : Int × Int) :
+    Rel k (St.init proj pre nums blocked lens) {} := by
   refine ⟨?_, fun h => absurd rfl h⟩
   intro cc h
   obtain ⟨p, _, rfl⟩ := map_get (f := Chan.new) (cs := proj) h
@@ -717,9 +741,9 @@ and C05 is `writing` ⇔ the state C06 REPORTS is active, not paused, with `k.ft
 and (OFF) the channel was eligible at START.  (Every prefix of a history is a history and
 `project_append` says its projection is the corresponding prefix: the agreement holds throughout.) -/
 theorem writeControl_simulates {ρ} (F : C05.Fmt ρ) (proj : List Bool) (pre : List Run) (nums : List Int)
-    (blocked : List Nat) (ops : List Op) (k : FKey) (wops : List (C05.Op ρ))
-    (hw : shapes wops = project k (St.init proj pre nums blocked) ops) :
-    let s := runOps (St.init proj pre nums blocked) ops
+    (blocked : List Nat) (lens : Int × Int) (ops : List Op) (k : FKey) (wops : List (C05.Op ρ))
+    (hw : shapes wops = project k (St.init proj pre nums blocked lens) ops) :
+    let s := runOps (St.init proj pre nums blocked lens) ops
     let c := (C05.run F {} wops).ctl
     ∀ cc, s.chans[k.ch]? = some cc →
       c.paused = cc.paused ∧
@@ -728,9 +752,9 @@ theorem writeControl_simulates {ρ} (F : C05.Fmt ρ) (proj : List Bool) (pre : L
         (s.ws.active = true ∧ s.ws.paused = false ∧ s.ws.enabled k.ft = true ∧ s.ws.pat = some k.run ∧
           (k.ft = .off → cc.elig = true))) := by
   intro s c cc hcc
-  have hg : Good s := good_runOps ops _ (good_init proj pre nums blocked)
-  have hsim := (sim_run k ops _ {} (good_init proj pre nums blocked) (rel_init k proj pre nums blocked)).1
-  have hc : c = ctlRun {} (project k (St.init proj pre nums blocked) ops) := by
+  have hg : Good s := good_runOps ops _ (good_init proj pre nums blocked lens)
+  have hsim := (sim_run k ops _ {} (good_init proj pre nums blocked lens) (rel_init k proj pre nums blocked lens)).1
+  have hc : c = ctlRun {} (project k (St.init proj pre nums blocked lens) ops) := by
     show (C05.run F {} wops).ctl = _
     rw [run_ctl, ← hw, ctlRun_shapes]
   rw [← hc] at hsim
@@ -744,11 +768,11 @@ theorem writeControl_simulates {ρ} (F : C05.Fmt ρ) (proj : List Bool) (pre : L
 /-- **stored_eq_published.**  The counter C06 keeps for file `k` is the number of records C05 counts as
 published while writing, for every history and every writer history of that shape. -/
 theorem stored_eq_published {ρ} (F : C05.Fmt ρ) (proj : List Bool) (pre : List Run) (nums : List Int)
-    (blocked : List Nat) (ops : List Op) (k : FKey) (wops : List (C05.Op ρ))
-    (hw : shapes wops = project k (St.init proj pre nums blocked) ops) :
-    stored (runOps (St.init proj pre nums blocked) ops).files k =
+    (blocked : List Nat) (lens : Int × Int) (ops : List Op) (k : FKey) (wops : List (C05.Op ρ))
+    (hw : shapes wops = project k (St.init proj pre nums blocked lens) ops) :
+    stored (runOps (St.init proj pre nums blocked lens) ops).files k =
       (Compose.publishedWhileWriting F {} wops).length := by
-  have h := (sim_run k ops _ {} (good_init proj pre nums blocked) (rel_init k proj pre nums blocked)).2
+  have h := (sim_run k ops _ {} (good_init proj pre nums blocked lens) (rel_init k proj pre nums blocked lens)).2
   rw [h, published_length, ← written_shapes wops, hw]
   show 0 + _ = _
   omega
@@ -758,24 +782,24 @@ for records of the configured length, `Compose.runOps_chanRecs_len`; OFF for one
 C06's counter for file `k` is the number of records in the list `accepted` whose encodings, after the
 header, ARE the file (`C05_file_is_header_plus_records`, `C05_disk_is_prefix`). -/
 theorem stored_eq_accepted {ρ} (F : C05.Fmt ρ) (proj : List Bool) (pre : List Run) (nums : List Int)
-    (blocked : List Nat) (ops : List Op) (k : FKey) (wops : List (C05.Op ρ))
-    (hw : shapes wops = project k (St.init proj pre nums blocked) ops)
+    (blocked : List Nat) (lens : Int × Int) (ops : List Op) (k : FKey) (wops : List (C05.Op ρ))
+    (hw : shapes wops = project k (St.init proj pre nums blocked lens) ops)
     (hacc : ∀ b, C05.Op.publish b ∈ wops → ∀ r ∈ b, F.accept r = true) :
-    stored (runOps (St.init proj pre nums blocked) ops).files k = (C05.accepted F {} wops).length := by
+    stored (runOps (St.init proj pre nums blocked lens) ops).files k = (C05.accepted F {} wops).length := by
   rw [Compose.accepted_eq_published F wops {} hacc]
-  exact stored_eq_published F proj pre nums blocked ops k wops hw
+  exact stored_eq_published F proj pre nums blocked lens ops k wops hw
 
 /-- the two models side by side: once the writer is stopped, the file is the header followed by the
 encodings of exactly as many records as C06's counter says -/
 theorem file_holds_the_counted_records {ρ} (F : C05.Fmt ρ) (proj : List Bool) (pre : List Run)
-    (nums : List Int) (blocked : List Nat) (ops : List Op) (k : FKey) (wops : List (C05.Op ρ))
-    (hw : shapes wops = project k (St.init proj pre nums blocked) ops)
+    (nums : List Int) (blocked : List Nat) (lens : Int × Int) (ops : List Op) (k : FKey) (wops : List (C05.Op ρ))
+    (hw : shapes wops = project k (St.init proj pre nums blocked lens) ops)
     (hacc : ∀ b, C05.Op.publish b ∈ wops → ∀ r ∈ b, F.accept r = true)
     (hstop : (C05.run F {} wops).ctl.phase = .stopped) :
-    ∃ recs : List ρ, recs.length = stored (runOps (St.init proj pre nums blocked) ops).files k ∧
+    ∃ recs : List ρ, recs.length = stored (runOps (St.init proj pre nums blocked lens) ops).files k ∧
       C05.fileOf (C05.run F {} wops) =
         if C05.touched {} wops then some (F.header ++ recs.flatMap F.enc) else none :=
-  ⟨C05.accepted F {} wops, (stored_eq_accepted F proj pre nums blocked ops k wops hw hacc).symm,
+  ⟨C05.accepted F {} wops, (stored_eq_accepted F proj pre nums blocked lens ops k wops hw hacc).symm,
     C05.C05_file_is_header_plus_records F wops hstop⟩
 
 /-! ### the hypothesis `shapes wops = project …` can always be met -/
@@ -792,6 +816,7 @@ theorem shapes_emitAt (k : FKey) (s : St) (o : Op) : shapes (emitAt k s o) = emi
   · cases o with
     | pub counts => simp [emit, shapes]
     | proj ch => rfl
+    | lens n p => rfl
     | srcEnd => simp only [emit]; split <;> rfl
     | srcStart => simp only [emit]; split <;> rfl
     | req q path l22 off l3 map =>
